@@ -131,7 +131,7 @@ fuzz_target!(|data: &[u8]| {
             }
         }
     }
-    if g.execs % 1000 == 0 {
+    if g.execs % 500 == 0 {
         let dir = std::env::var("VERIF_DIR").unwrap_or_else(|_| "/verif".into()) + "/evidence/.parts";
         let _ = std::fs::create_dir_all(&dir);
         let id = std::env::var("VERIF_FUZZ_PROFILE").unwrap_or_else(|_| "ALL".into());
@@ -143,6 +143,7 @@ fuzz_target!(|data: &[u8]| {
             "wall_s": g.started.elapsed().as_secs_f64(), "violations": [], "classes": {},
             "rule": p.rule, "assumptions": p.assumptions,
         });
-        let _ = std::fs::write(format!("{}/{}.F.json", dir, id), serde_json::to_string(&part).unwrap());
+        let w = std::env::var("VERIF_FUZZ_PART").unwrap_or_default();
+        let _ = std::fs::write(format!("{}/{}.F{}.json", dir, id, w), serde_json::to_string(&part).unwrap());
     }
 });
